@@ -5,6 +5,10 @@
                         was (as xterm's ECH does); the mock terminal moves it
      flx tl tc          flush through the xterm driver; observation X{payload code points}
      lct                the compiled linemask_to_char table; observation L{hex.hex...}
+     tp tl tc gl gc T   print text T on a tl x tc mock terminal (sentinel pattern, cursor (gl,gc),
+                        empty pen) through the mock driver's print; observation P{line.col}{grid}.
+                        T up to its first NUL is a valid text (that much is printed), or begins
+                        with an invalid code point (then nothing is printed).
    After a flush the buffer is reset (a following D shows it). *)
 
 let pr_termop tl tc = function
@@ -42,7 +46,7 @@ let braces tok =   (* "K{a}{b}" -> [a; b] *)
 let pen_arg p = if p = "null" then pen_empty else parse_pen p
 
 let () =
-  ext_arity := (function "fl" | "flm" -> Some 5 | "flx" -> Some 2 | "lct" -> Some 0 | _ -> None);
+  ext_arity := (function "fl" | "flm" | "tp" -> Some 5 | "flx" -> Some 2 | "lct" -> Some 0 | _ -> None);
   ext_model := (fun bufs cur kw args ->
       match kw, args with
       | ("fl" | "flm"), [tl; tc; gl; gc; p] ->
@@ -58,10 +62,20 @@ let () =
       | "flx", [_; _] ->
         let (ops, s') = unres (flush bufs.(cur)) in
         bufs.(cur) <- s';
-        let payload = List.concat (List.map (function TPrint s -> s | _ -> []) ops) in
+        let payload = xterm_payload pen_empty ops in
         [Printf.sprintf "X{%s}" (pr_text payload)]
       | "lct", [] ->
         [Printf.sprintf "L{%s}" (String.concat "." (List.map (fun c -> Printf.sprintf "%x" (iz c)) linemask_to_char))]
+      | "tp", [tl; tc; gl; gc; t] ->
+        let t0 = t_init (zi (int_of_string tl)) (zi (int_of_string tc)) (zi (int_of_string gl)) (zi (int_of_string gc)) pen_empty true in
+        (* printn stops at a NUL; an invalid first code point prints nothing *)
+        let rec upto0 = function [] -> [] | c :: r -> if iz c = 0 then [] else c :: upto0 r in
+        let txt = upto0 (parse_text t) in
+        let r = if text_valid txt then t_run t0 [TPrint txt] else Ok t0 in
+        (match r with
+         | Ok t1 -> [Printf.sprintf "P{%d.%d}{%s}" (iz t1.t_line) (iz t1.t_col) (pr_grid t1.tg)]
+         | Fault -> ["P{TERMFAULT}"]
+         | NoFuel -> ["P{NOFUEL}"])
       | _ -> failwith "ext");
   ext_oracle := (fun sts cur kw args obs ->
       match obs with
@@ -87,8 +101,15 @@ let () =
               (match braces tok with
                | [t] when tok.[0] = 'L' -> table_okb (parse_text t)
                | _ -> false)
+            | "tp", [tl; tc; _; _; _] ->
+              (* the terminal returned, with a grid of the right shape *)
+              (match braces tok with
+               | [_; grid] when tok.[0] = 'P' ->
+                 let g = parse_tgrid grid in
+                 List.length g = int_of_string tl && List.for_all (fun r -> List.length r = int_of_string tc) g
+               | _ -> false)
             | _ -> false
           with Failure _ -> false in
-        if kw <> "lct" then sts.(cur) <- a_reset sts.(cur);
+        if kw <> "lct" && kw <> "tp" then sts.(cur) <- a_reset sts.(cur);
         (ok, rest));
   main ()
